@@ -186,6 +186,8 @@ type humanStats struct {
 	PerPrefix     map[string]int   `json:"per_prefix"`
 	// number of goroutines that were formatting concurrently
 	ConcurrentJudges int `json:"concurrent_judges"`
+	// first-use rounds: a fresh copy of the formatter entered by several goroutines at the same moment
+	FirstUseRounds int `json:"first_use_rounds"`
 }
 
 func humanCheckSorted(vals []uint64, binary bool, st *humanStats) {
@@ -235,6 +237,58 @@ func humanCheckSorted(vals []uint64, binary bool, st *humanStats) {
 			st.Samples = append(st.Samples, []interface{}{hn, n, num, us})
 		}
 	}
+}
+
+// firstUse: whatever a formatter sets up lazily is set up by its first callers; here the first callers of a fresh copy are
+// several goroutines released together.  Each rendering is judged like any other.
+// copies taken before anything was formatted: whatever the formatters build on first use is not built yet in these
+var pristineMetric, pristineBinary = counts.Metric, counts.Binary
+
+func firstUse(st *humanStats, rng *rand.Rand) {
+	rounds := 30000
+	vals := []uint64{5000000, 3 << 30, 9870000000000000, 1023, 1024, 999999, 1 << 40, 12345678901, 7, 1000, 18446744073709551615}
+	for r := 0; r < rounds; r++ {
+		binary := r%2 == 1
+		hv := pristineMetric
+		if binary {
+			hv = pristineBinary
+		}
+		h := &hv
+		const g = 8
+		var start, done sync.WaitGroup
+		start.Add(1)
+		type res struct {
+			n       uint64
+			num, us string
+		}
+		out := make([]res, g)
+		for k := 0; k < g; k++ {
+			n := vals[(r*g+k+int(rng.Int63n(3)))%len(vals)]
+			done.Add(1)
+			go func(k int, n uint64) {
+				defer done.Done()
+				start.Wait()
+				num, us := h.FormatNumber(n, "B")
+				out[k] = res{n, num, us}
+			}(k, n)
+		}
+		start.Done()
+		done.Wait()
+		for _, o := range out {
+			st.Evaluations++
+			vs, _ := judge(o.n, binary, o.num, o.us, "B")
+			for _, v := range vs {
+				if v.FloatNoise {
+					continue
+				}
+				v.Clause = "first-use-by-several-goroutines/" + v.Clause
+				if len(st.Violations) < 200 {
+					st.Violations = append(st.Violations, v)
+				}
+			}
+		}
+	}
+	st.FirstUseRounds = rounds
 }
 
 // humanBulk: apidrv human-bulk <seed> <nrandom>
@@ -357,5 +411,6 @@ func humanBulk(args []string) {
 		}
 		st.ConcurrentJudges = nb
 	}
+	firstUse(st, rng)
 	emit(st)
 }
